@@ -165,9 +165,8 @@ def run : Runner
     let model := match r with
       | none => "none"
       | some cs =>
-        -- "?": the selector returned another implementation of the Coins interface; only the ids are observable
-        if impl.endsWith " ?" then s!"ok:{idsTok cs.coins} ?"
-        else s!"ok:{idsTok cs.coins} {cs.coins.length}/{cs.totalValue}/{cs.totalValueAge}"
+        -- (an observation ending in " ?" - the selector returned another implementation of the Coins interface - is a DIFF)
+        s!"ok:{idsTok cs.coins} {cs.coins.length}/{cs.totalValue}/{cs.totalValueAge}"
     -- the predicates below look at the id list (first token); the totals token is compared with the model's
     let impl := (impl.splitOn " ").headD impl
     -- C19 on the implementation's selection
